@@ -26,7 +26,9 @@ func init() {
 			"function not documented as destructive changes no other variable), independence (a destructive function changes no " +
 			"variable that cannot share structure with its operands by the language rules), value (the result equals the cons-cell " +
 			"reference result). A case is non-trivial when that comparison covers at least one non-empty list held by a variable " +
-			"other than the one assigned",
+			"other than the one assigned. A history containing a step that has no defined outcome in the reference semantics (empty " +
+			"operand, index out of range, splice that would build a cycle) or that starts with an operation on c is counted as " +
+			"executed but judges nothing (hit counter 'judged' = histories actually judged)",
 		Assumptions: []string{
 			"sharing by the language rules is tracked as equivalence classes (two proper lists share iff they have a common tail); " +
 				"destructive cuts (rplacd, delete) never split a class, which only makes the oracle more permissive",
@@ -58,7 +60,7 @@ func init() {
 				return 0
 			},
 		},
-		Required: []string{"shared-backing", "destructive-on-shared", "extend-with-spare-cap"},
+		Required: []string{"judged", "shared-backing", "destructive-on-shared", "extend-with-spare-cap"},
 		Bound:    bound,
 		Selftest: selftest,
 	})
